@@ -226,6 +226,7 @@ def run(ctx, chk):
     r1(ctx, chk)
     r2(ctx, chk)
     r3(ctx, chk)
+    time_words_rule(ctx, chk, "C15.R6")
 
 
 def r1(ctx, chk):
@@ -561,3 +562,47 @@ def r3(ctx, chk):
     ok = "self.parser.parse(self.source, settings)" in t and "except ValueError:" in t
     chk.ob(rule, "CalendarBase.get_date parses self.source and turns ValueError into None", ok, "", key={"function": cb.key, "construct": "get_date"},
            file=cb.file, function=cb.qual, line=cb.node.lineno)
+
+
+
+def time_words_rule(ctx, chk, rule):
+    """'... ساعت 11 و 01 دقیقه و 47 ثانیه' (hour 11 and 01 minute and 47 second) is turned into '11:01:47' by a chain of whole-string
+    rewritings: the three unit words with their two digits are blanked to digits, every ' و ' becomes ':', the hour word goes.  Each stage
+    must see the whole current string - an earlier stage may already have removed the word a later stage would look for to find "its" part
+    - and the function returns the last stage's result."""
+    J = ctx.ix.cls(JP)
+    m = J.methods.get("_replace_time") if hasattr(J, "methods") else None
+    f = m or ctx.ix.func(JP + "._replace_time")
+    src = f.params()[1]
+    cur = {src}
+    var = None
+    stages = 0
+    for s in f.node.body:
+        if isinstance(s, ast.FunctionDef) or (isinstance(s, ast.Expr) and isinstance(s.value, ast.Constant)):
+            continue
+        if isinstance(s, ast.Assign) and len(s.targets) == 1 and isinstance(s.targets[0], ast.Name) and isinstance(s.value, ast.Constant):
+            continue            # pattern constants
+        if isinstance(s, ast.Return):
+            chk.ob(rule, "_replace_time returns the result of its last rewriting", isinstance(s.value, ast.Name) and s.value.id == var, "returns %s" % ast.unparse(s.value),
+                   key={"function": f.key, "construct": "return last stage"}, file=f.file, function=f.qual, line=s.lineno)
+            continue
+        if not (isinstance(s, ast.Assign) and len(s.targets) == 1):
+            raise AnalysisError(rule, "_replace_time: statement outside the rewriting chain: %s" % ast.unparse(s)[:60])
+        tg = s.targets[0]
+        v = s.value
+        subject = None
+        if isinstance(v, ast.Call) and ast.unparse(v.func) in ("re.sub", "regex.sub") and len(v.args) >= 3:
+            subject = v.args[2]
+        elif isinstance(v, ast.Call) and isinstance(v.func, ast.Attribute) and v.func.attr == "replace" and len(v.args) == 2:
+            subject = v.func.value
+        whole = isinstance(tg, ast.Name) and isinstance(subject, ast.Name) and subject.id in cur
+        stages += 1
+        chk.ob(rule, "_replace_time line %d: the rewriting is applied to the whole current string" % s.lineno, whole,
+               "`%s` rewrites %s: a part of the string (or something other than the previous stage's result) - text outside that part keeps "
+               "its ' و ' / unit words and the time is no longer read" % (" ".join(ast.unparse(s).split())[:80], "`%s`" % ast.unparse(subject) if subject is not None else "nothing recognisable"),
+               key={"function": f.key, "construct": "whole-string stage %d" % stages}, file=f.file, function=f.qual, line=s.lineno,
+               text=" ".join(ast.unparse(s).split())[:100])
+        if whole:
+            var = tg.id
+            cur = {var}
+    chk.floor(rule, stages, 4, "rewriting stages of _replace_time")
